@@ -62,6 +62,25 @@ def native_fit_replay(cls):
     return rep
 
 
+def kde_alias_replay(env):
+    import warnings
+    import numpy as np
+    warnings.simplefilter('ignore')
+    from copulas.univariate import GaussianKDE
+    rs = np.random.RandomState(2)
+    X = rs.normal(3.0, 1.0, size=200)
+    m = GaussianKDE()
+    m.fit(X)
+    q = np.array([2.0, 3.0, 4.0])
+    before = m.probability_density(q).copy()
+    X[:] = rs.normal(30.0, 1.0, size=200)            # the caller re-uses its buffer
+    after = m.probability_density(q)
+    bad = [] if np.allclose(before, after, rtol=1e-12) else [
+        'GaussianKDE density at %r was %r after fit and is %r after the caller overwrote its own array' %
+        (q.tolist(), np.round(before, 4).tolist(), np.round(after, 4).tolist())]
+    return {'confirmed': bool(bad), 'detail': bad[0] if bad else 'the fitted KDE does not follow changes of the training array'}
+
+
 def build(chk):
     I0 = engine.new_interp()
     src = I0.source
@@ -230,5 +249,13 @@ def build_kde(chk):
                        function=qual + '.probability_density', free_ufs_ok=True, replay=native_fit_replay(cls),
                        clause='density = gaussian_kde(%s, bw_method=requested, weights=requested).evaluate(x)' %
                               ('resample of the requested sample_size' if cfg == 'sample_size' else 'training data')))
+            # the estimator must own its data: built from the caller's array itself it would follow later changes of it
+            mdl = r.state['attrs'].get('_model')
+            ds = getattr(mdl, 'ds', None)
+            aliased = getattr(ds, 'owner', None) is not None
+            chk.add(Ob('C04.GaussianKDE.%s.estimator_owns_its_data.%d' % (cfg, k), [], ir.const(not aliased),
+                       backends=('syntactic',), function=qual + '._fit', replay=kde_alias_replay,
+                       clause='the fitted kernel estimate is built from a private copy of the training data (the array handed to '
+                              'fit is not kept inside the scipy estimator), so it stays the estimate of the data it was trained on'))
         if k == 0 and not chk.undecided:
             chk.engine_error('C04.GaussianKDE.%s: no returning path' % cfg)
